@@ -5,7 +5,7 @@ open Lean
 /-! Driver glue for the transport-selection model (C15 §6).
 
 ```
-{"m":"detect","url":str,"post":P,"gets":[[url,P]…]}     P = "exc" | {"status":n,"ct":str}   (a GET of an unlisted URL: 404, no content type)
+{"m":"detect","url":str,"post":P,"gets":[[url,P]…],"norm":[[raw,wire|null]…]}     P = "exc" | {"status":n,"ct":str}   (a GET of an unlisted URL: 404, no content type)
 -> {"streamable":b,"sse_url":b,"probe_urls":[str…],"detect":str,"gets":n,
     "fallback":{"k":"http"|"sse"|"fail","url":str|null},"probed":b,"http_valid":b,"sse_valid":b}
 ```
@@ -25,9 +25,23 @@ def handle (j : Json) : Except String Json := do
     let u ← (← e.getArrVal? 0).getStr?
     let p ← probeOf (← e.getArrVal? 1)
     pure (u.toList, p))
-  let get : Str → Probe := fun u => match table.find? (fun e => e.1 == u) with
+  -- "norm": [[raw URL, the URL as the HTTP client puts it on the wire | null when it refuses it]…]; the table is then
+  -- keyed by wire URLs
+  let norm ← match j.getObjValAs? (Array Json) "norm" with
+    | .ok a => a.toList.mapM (fun e => do
+        let u ← (← e.getArrVal? 0).getStr?
+        let n := match e.getArrVal? 1 with
+          | .ok (.str s) => some s.toList
+          | _ => none
+        pure (u.toList, n))
+    | .error _ => pure []
+  let lookup : Str → Probe := fun u => match table.find? (fun e => e.1 == u) with
     | some e => e.2
     | none => .resp 404 []
+  let get : Str → Probe := fun u => match norm.find? (fun e => e.1 == u) with
+    | some (_, some n) => lookup n
+    | some (_, none) => .exc
+    | none => lookup u
   let d := detect post get url
   let f := fallback post get url
   let fj := match f.1 with
